@@ -38,12 +38,52 @@ func ruleOpMargin(c *Ctx, r *Report, prefix string) {
 	}
 	pos := c.Pos(kc.Pos())
 	// (1) wiring: newEncoder stores the constant, writeOp compares Available() with the field
+	// the smallest value the stored expression can take: a constant, a choice between constants
+	// (phi), or a sum of those
+	var minOf func(v ssa.Value, depth int) (int64, bool)
+	minOf = func(v ssa.Value, depth int) (int64, bool) {
+		v = stripConv(v)
+		if depth > 6 {
+			return 0, false
+		}
+		if k, isK := constInt(v); isK {
+			return k, true
+		}
+		switch x := v.(type) {
+		case *ssa.Phi:
+			best, any := int64(0), false
+			for _, e := range x.Edges {
+				k, ok := minOf(e, depth+1)
+				if !ok {
+					return 0, false
+				}
+				if !any || k < best {
+					best, any = k, true
+				}
+			}
+			return best, any
+		case *ssa.BinOp:
+			if x.Op == token.ADD {
+				a, ok1 := minOf(x.X, depth+1)
+				b, ok2 := minOf(x.Y, depth+1)
+				if ok1 && ok2 {
+					return a + b, true
+				}
+			}
+		}
+		return 0, false
+	}
 	okStore := false
 	for _, b := range c.GB(newEnc) {
 		for _, ins := range b.Instrs {
 			if st, isSt := storeToField(ins, fMargin); isSt {
-				if k, isK := constInt(stripConv(st.Val)); isK && k == margin {
-					okStore = true
+				if k, isK := minOf(st.Val, 0); isK {
+					if k == margin {
+						okStore = true
+					} else if k < margin {
+						okStore = false
+						margin = k // the effective threshold is smaller than the constant
+					}
 				}
 			}
 		}
